@@ -492,6 +492,10 @@ pub fn seeds_for(target: &str) -> Vec<Seed> {
             add("mime-versions", Some(mime_seed(BPSV)));
             add("mime-short", Some(mime_seed("Region!STRING:0|BuildId!DEC:4\n## seqn = 1\nus|1")));
         }
+        "pkcs7-signature" => {
+            add("pkcs7-certificate-only", Some(pkcs7_seed(false)));
+            add("pkcs7-with-signer", Some(pkcs7_seed(true)));
+        }
         "build-info" => add("build-info", Some(BUILD_INFO.as_bytes().to_vec())),
         "idx" => {
             add("idx-30", idx_seed(30));
@@ -532,4 +536,61 @@ fn collect_strings(j: &serde_json::Value, out: &mut Vec<String>) {
         serde_json::Value::Object(o) => o.values().for_each(|x| collect_strings(x, out)),
         _ => {}
     }
+}
+
+
+// ---- DER: a PKCS#7 SignedData with an embedded v3 certificate (extensions: SKI, AKI, key usage) ----
+
+fn der(tag: u8, parts: &[&[u8]]) -> Vec<u8> {
+    let content: Vec<u8> = parts.concat();
+    let mut out = vec![tag];
+    match content.len() {
+        n if n < 0x80 => out.push(n as u8),
+        n if n <= 0xFF => out.extend_from_slice(&[0x81, n as u8]),
+        n => out.extend_from_slice(&[0x82, (n >> 8) as u8, n as u8]),
+    }
+    out.extend_from_slice(&content);
+    out
+}
+
+/// a small, structurally complete SignedData: one certificate (version 3, RSA key, three
+/// extensions), optionally one SignerInfo with signed attributes
+pub fn pkcs7_seed(with_signer: bool) -> Vec<u8> {
+    const SHA256_RSA: &[u8] = &[0x06, 0x09, 0x2A, 0x86, 0x48, 0x86, 0xF7, 0x0D, 0x01, 0x01, 0x0B];
+    const RSA: &[u8] = &[0x06, 0x09, 0x2A, 0x86, 0x48, 0x86, 0xF7, 0x0D, 0x01, 0x01, 0x01];
+    const SHA256: &[u8] = &[0x06, 0x09, 0x60, 0x86, 0x48, 0x01, 0x65, 0x03, 0x04, 0x02, 0x01];
+    const SIGNED_DATA: &[u8] = &[0x06, 0x09, 0x2A, 0x86, 0x48, 0x86, 0xF7, 0x0D, 0x01, 0x07, 0x02];
+    const DATA: &[u8] = &[0x06, 0x09, 0x2A, 0x86, 0x48, 0x86, 0xF7, 0x0D, 0x01, 0x07, 0x01];
+    const CN: &[u8] = &[0x06, 0x03, 0x55, 0x04, 0x03];
+    const SKI: &[u8] = &[0x06, 0x03, 0x55, 0x1D, 0x0E];
+    const AKI: &[u8] = &[0x06, 0x03, 0x55, 0x1D, 0x23];
+    const KEY_USAGE: &[u8] = &[0x06, 0x03, 0x55, 0x1D, 0x0F];
+    const NULL: &[u8] = &[0x05, 0x00];
+    let seq = |parts: &[&[u8]]| der(0x30, parts);
+    let name = |cn: &str| {
+        let atv = seq(&[CN, &der(0x0C, &[cn.as_bytes()])]);
+        seq(&[&der(0x31, &[&atv])])
+    };
+    let sig_alg = seq(&[SHA256_RSA, NULL]);
+    let validity = seq(&[&der(0x17, &[b"250101000000Z"]), &der(0x17, &[b"350101000000Z"])]);
+    let rsa_key = seq(&[&[0x02, 0x09, 0x00, 0xB5, 0x11, 0x22, 0x33, 0x44, 0x55, 0x66, 0x77], &[0x02, 0x03, 0x01, 0x00, 0x01]]);
+    let spki = seq(&[&seq(&[RSA, NULL]), &der(0x03, &[&[0x00], &rsa_key])]);
+    let id = [0xAAu8, 0xBB, 0xCC, 0xDD, 0xEE, 0x01, 0x02, 0x03];
+    let ext_ski = seq(&[SKI, &der(0x04, &[&der(0x04, &[&id])])]);
+    let ext_aki = seq(&[AKI, &der(0x04, &[&seq(&[&der(0x80, &[&id])])])]);
+    let ext_ku = seq(&[KEY_USAGE, &[0x01, 0x01, 0xFF], &der(0x04, &[&[0x03, 0x02, 0x05, 0xA0]])]);
+    let extensions = der(0xA3, &[&seq(&[&ext_ski, &ext_aki, &ext_ku])]);
+    let serial = [0x02u8, 0x04, 0x01, 0x02, 0x03, 0x04];
+    let tbs = seq(&[&der(0xA0, &[&[0x02, 0x01, 0x02]]), &serial, &sig_alg, &name("Test Issuer CA"), &validity, &name("test.signer"), &spki, &extensions]);
+    let cert = seq(&[&tbs, &sig_alg, &der(0x03, &[&[0x00, 0xDE, 0xAD, 0xBE, 0xEF, 0x01, 0x02, 0x03, 0x04]])]);
+    let signer_infos = if with_signer {
+        let issuer_and_serial = seq(&[&name("Test Issuer CA"), &serial]);
+        let attrs = der(0xA0, &[&seq(&[&[0x06, 0x09, 0x2A, 0x86, 0x48, 0x86, 0xF7, 0x0D, 0x01, 0x09, 0x04], &der(0x31, &[&der(0x04, &[&[0x11u8; 32]])])])]);
+        let si = seq(&[&[0x02, 0x01, 0x01], &issuer_and_serial, &seq(&[SHA256, NULL]), &attrs, &seq(&[RSA, NULL]), &der(0x04, &[&[0x5Au8; 16]])]);
+        der(0x31, &[&si])
+    } else {
+        der(0x31, &[])
+    };
+    let signed_data = seq(&[&[0x02, 0x01, 0x01], &der(0x31, &[&seq(&[SHA256, NULL])]), &seq(&[DATA]), &der(0xA0, &[&cert]), &signer_infos]);
+    seq(&[SIGNED_DATA, &der(0xA0, &[&signed_data])])
 }
